@@ -408,7 +408,7 @@ bool aiounicast_select::Send
 				return false;
 			}
 			memset(chunk, 0, blklen);
-			mpz_export(chunk, NULL, 1, 1, 1, 0, chunk_out[i_in]);
+			mpz_export(chunk, NULL, -1, 1, 1, 0, chunk_out[i_in]);
 			for (size_t c = 0; c < blklen; c++)
 				ctr[c] ^= chunk[c];
 			err = gcry_cipher_setctr(*enc_out[i_in], ctr, blklen);
@@ -947,7 +947,7 @@ bool aiounicast_select::Receive
 										return false;
 									}
 									memset(chunk, 0, blklen);
-									mpz_export(chunk, NULL, 1, 1, 1, 0,
+									mpz_export(chunk, NULL, -1, 1, 1, 0,
 										chunkval);
 									for (size_t c = 0; c < blklen; c++)
 										ctr[c] ^= chunk[c]; 
